@@ -119,8 +119,8 @@ func TestPropPipelines(t *testing.T) {
 			cls = append(cls, "pipeline_leak_attributed_to_"+id)
 		}
 		early := inf.stoppedEarly || sp.Has("first") || sp.Has("topSize") || sp.Has("present") || sp.Has("indexWhere") || sp.Has("top") || c.Consume != "force"
-		goroutineBacked := sp.HasSlow() || sp.Has("merge") || sp.Has("multiUse") || sp.Has("multiUseRejected") || sp.Has("multiUseFailingConsumer")
-		if sp.Has("multiUseRejected") || sp.Has("multiUseFailingConsumer") {
+		goroutineBacked := sp.HasSlow() || sp.Has("merge") || sp.Has("multiUse") || sp.Has("multiUseRejected") || sp.Has("multiUseFailingConsumer") || sp.Has("multiUseListUsedTwice")
+		if sp.Has("multiUseRejected") || sp.Has("multiUseFailingConsumer") || sp.Has("multiUseListUsedTwice") {
 			early = true // an error path of a goroutine-backed built-in
 			cls = append(cls, "pipeline_error_path_of_multiUse")
 		}
@@ -176,6 +176,9 @@ func TestErrorPathStopsBackgroundWork(t *testing.T) {
 		// the consumer is gone - that is the open finding F12 of the dependency)
 		"numbers(4000000).map(e -> if e = 2 then throw(\"x\") else cnt(e)).merge(numbers(6).map(e -> e * 2), (a, b) -> a < b).reduce((a, b) -> b)",
 		"numbers(4000000).number((i, e) -> if e = 3 then throw(\"x\") else cnt(e)).merge(numbers(7), (a, b) -> a < b).sum()",
+		// a consumer uses its list twice (an error); the other consumer still has work to do behind the end of the list
+		"numbers(20).multiUse({a: l -> l.first() + l.first(), b: l -> l.size() + numbers(1500000).map(e -> cnt(e)).reduce((a, b) -> b)})",
+		"numbers(20).multiUse({a: l -> l.map(e -> e).size() + l.map(e -> e).size(), b: l -> l.size() + numbers(1500000).map(e -> cnt(e)).reduce((a, b) -> b)})",
 		"numbers(9).multiUse({a: l -> l.merge(numbers(4000000).map(e -> if e = 3 then throw(\"x\") else cnt(e)), (a, b) -> a < b).size(), b: l -> l.size()})",
 	}
 	for _, text := range shapes {
@@ -193,8 +196,8 @@ func TestErrorPathStopsBackgroundWork(t *testing.T) {
 			time.Sleep(100 * time.Millisecond)
 			n2 := pstate.Cnt.Load()
 			c := PipeCase{Text: text, Repeats: 1, Consume: "force"}
-			if n2 > 10000 || n2 != n1 {
-				evid.Fail(t, prop, "errorpath", "", c, "%s failed at its 4th item and returned the error, but its operand was pulled on in the background: %d items 150 ms later, %d items 250 ms later", text, n1, n2)
+			if n2 != n1 {
+				evid.Fail(t, prop, "errorpath", "", c, "%s failed and returned the error, but work it had started went on in the background: the counting closure had run %d times 150 ms later, %d times 250 ms later", text, n1, n2)
 			}
 			evid.R.Case(true, fmt.Sprint("errorpath:", text, r), func() any { return map[string]any{"kind": "error path", "text": text, "items_pulled": n2} }, "error_path_of_merge")
 		}
@@ -217,7 +220,7 @@ func replayErrorPath(t *testing.T) {
 		time.Sleep(150 * time.Millisecond)
 		n1 := pstate.Cnt.Load()
 		time.Sleep(100 * time.Millisecond)
-		if n2 := pstate.Cnt.Load(); n2 > 10000 || n2 != n1 {
+		if n2 := pstate.Cnt.Load(); n2 != n1 {
 			evid.ReplayFailed(t, path, fmt.Sprintf("the operand was pulled on in the background: %d items, then %d", n1, n2))
 		} else {
 			evid.ReplayPassed(path)
